@@ -4,6 +4,8 @@ from __future__ import annotations
 import ast
 import builtins
 import importlib
+import io
+import os
 import inspect
 import re
 import sys
@@ -182,6 +184,7 @@ def render_tables(repo: Path):
 # K-C: canaries, expression generation, adapter
 
 LOG = []
+CANARY_FILE = '/tmp/C24-canary-file'
 
 
 class Canary:
@@ -295,7 +298,7 @@ FOREIGN = ['nope', 'len', '__import__', 'open', 'print', 'eval', 'exec', 'getatt
 CATALOGUE = [
     # calls
     'verif_canary()', '{a}()', '{a}({b})', '{a}({b}, k={c})', '{a}(*{b})', '{a}(**{b})', "__import__('os').system('true')",
-    'getattr({a}, "n")', 'print({a})', 'open("/tmp/C24-canary-file", "w")', 'exec("import os")', 'eval("1")',
+    'getattr({a}, "n")', 'print({a})', 'open("/tmp/C24-canary-file", "w").close()', 'exec("import os")', 'eval("1")',
     # attribute / subscript
     '{a}.real', '{a}.__class__', '{a}.__class__.__mro__', '{a}.b.c', '{a}[0]', '{a}[{b}]', '{a}[1:2]', '{a}[::2]',
     '{a}[{b}:{c}]', '{a}[1, 2]', '{a}[...]', '().__class__.__bases__[0].__subclasses__()',
@@ -494,8 +497,8 @@ class C24(Prop):
         for text in NOT_EXPRESSIONS:
             for ev, wl in evs[:3]:
                 yield self.mk(ev, text, self.std_vars(0), wl)
-        n_frag, n_rand, n_wl = {'quick': (4000, 3000, 1500), 'thorough': (150000, 100000, 50000)}.get(
-            tier, (200000, 150000, 50000))
+        n_frag, n_rand, n_wl = {'quick': (4000, 3000, 1500), 'thorough': (60000, 45000, 20000)}.get(
+            tier, (80000, 60000, 25000))
         all_classes = [n for n, _ in ast_classes()]
         for _ in range(n_frag):
             sup = rng.sample(SUPPLIED, rng.randint(0, 5))
@@ -538,6 +541,26 @@ class C24(Prop):
         canaries = {n: Canary(n, t) for n, t in inp['vars']}
         del LOG[:]
         out = None
+        # anything written to stdout, or the file the catalogue tries to open, is a side effect that is
+        # only possible with the real builtins: report it as the builtin canary (and keep stdout clean)
+        real_stdout, sys.stdout = sys.stdout, io.StringIO()
+        try:
+            out = self._call(ev, inp, canaries)
+        finally:
+            written, sys.stdout = sys.stdout.getvalue(), real_stdout
+        if written:
+            LOG.append('builtin-canary')
+        if os.path.exists(CANARY_FILE):
+            LOG.append('builtin-canary')
+            try:
+                os.remove(CANARY_FILE)
+            except OSError:
+                pass
+        out['log'] = sorted(set(LOG))
+        del LOG[:]
+        return out
+
+    def _call(self, ev, inp, canaries):
         try:
             r = ev(inp['expr'], **canaries)
         except NameError as exc:
@@ -545,16 +568,21 @@ class C24(Prop):
         except BaseException as exc:  # noqa
             msg = str(exc)
             m = re.search(r'\n"(\w+)" not permitted\Z', msg)
-            if m and isinstance(exc, (ValueError, self.ICE)):
+            # raised by _eval itself (parse error / whitelist) or from inside the evaluated code?
+            tb = exc.__traceback__
+            while tb is not None and tb.tb_next is not None:
+                tb = tb.tb_next
+            # (a raw SyntaxError out of _eval is compile() refusing an accepted tree, e.g. "await")
+            by_evaluator = (tb is not None and tb.tb_frame.f_code.co_name == '_eval'
+                            and not isinstance(exc, SyntaxError))
+            if m and by_evaluator:
                 out = {'res': 'reject', 'kind': m.group(1)}
-            elif inp['tree'] is None:
+            elif by_evaluator or inp['tree'] is None:
                 out = {'res': 'syntax'}
             else:
                 out = {'res': 'raise', 'exc': type(exc).__name__}
         else:
             out = {'res': 'value', 'val': self.encode(r, canaries)}
-        out['log'] = sorted(set(LOG))
-        del LOG[:]
         return out
 
     def encode(self, r, canaries):
